@@ -90,6 +90,13 @@ theorem gen_filter_bound :
 theorem gen_checks_present :
     C18.directTargetOnlyRequiresIP = true ∧ C18.domainSetNamesUnique = true ∧ C18.prefixSetNamesUnique = true := by decide
 
+/-- the replay window the NAT timeouts are measured against covers the (2·MaxEpochDiff+1) s during which a
+    timestamp validates (C03 proves that much necessary) -/
+theorem gen_replay_window : (2 * C18.MaxEpochDiff + 1) * 1000000000 ≤ C18.ReplayWindowDuration := by decide
+
+/-- every server stores its index in `serverIndexByName` (the extractor accepts no other loop shape) -/
+theorem gen_server_index : C18.serverIndexEveryServer = true := by decide
+
 -- ---------------------------------------------------------------- invariants
 
 /-- the invariants of one accepted UDP listener -/
@@ -853,6 +860,29 @@ example : errorOf (validate exConfig) = none := by decide
 
 end SSV.C18
 
+namespace SSV.C18
+open SSV.Config SSV.Gen
+
+/-- **no_crash_configs**, route matching: in an accepted configuration the `fromServers` bit set of every route
+    (capacity `len(serverIndexByName)`) has a bit for the index of EVERY server - also unnamed ones - so
+    `SourceServerCriterion.Meet` never indexes out of range, whichever server a request arrives on. -/
+theorem server_index_in_range {c : Config} {e : Eff} (h : validate c = .ok e) :
+    c.bitsetCapacity = c.servers.length ∧ ∀ i, i < c.servers.length → i < c.bitsetCapacity := by
+  have ⟨_, _, _, snd, _⟩ := accepted_sound h
+  have hcap : c.bitsetCapacity = c.servers.length := by
+    unfold Config.bitsetCapacity
+    rw [mapSize_nodup snd, List.length_map]
+  exact ⟨hcap, fun i hi => by rw [hcap]; exact hi⟩
+
+/-- why the uniqueness check must cover every server: with two unnamed servers the map has one entry, the second
+    server's index is out of range - and such a configuration is refused -/
+example : Config.bitsetCapacity { servers := [{ exServer with name := "" }, { exServer with name := "" }] } = 1 ∧
+    errorOf (validate { servers := [{ exServer with name := "" }, { exServer with name := "" }] }) = some "dup-server" ∧
+    errorOf (validate { servers := [{ exServer with name := "edge" }, { exServer with name := "" }] }) = none :=
+  ⟨by decide, by decide, by decide⟩
+
+end SSV.C18
+
 #print axioms SSV.C18.gen_pskLen
 #print axioms SSV.C18.gen_mtu
 #print axioms SSV.C18.gen_nat
@@ -895,3 +925,6 @@ end SSV.C18
 #print axioms SSV.C18.accepted_resolvers
 #print axioms SSV.C18.names_sub
 #print axioms SSV.C18.dangling_rejected
+#print axioms SSV.C18.gen_replay_window
+#print axioms SSV.C18.gen_server_index
+#print axioms SSV.C18.server_index_in_range
